@@ -277,7 +277,7 @@ def build_engine(contract, all_contracts, timeout_ms=10000, mutate=None):
         node0 = find_function(ast.parse(src), contract.qualname)
         seg = ast.get_source_segment(src, node0)
         if seg is None or old not in seg:
-            if contract.modular or src.count(old) != 1:
+            if src.count(old) != 1:
                 raise EngineError('canary anchor %r not inside %s' % (old, contract.qualname))
             src = src.replace(old, new, 1)        # callees are inlined: the mutation may sit in one of them
         else:
@@ -318,7 +318,9 @@ def verify(contract, all_contracts=(), timeout_ms=10000, mutate=None, negate_pos
             owner = menv.lookup(parts[0])
 
         def contract_env(c):
-            g = Env(menv, dict(c.spec_env))
+            # a callee's contract is read in the caller's specification world (uninterpreted functions and constants that
+            # both setups declare under the same name are the same symbols)
+            g = Env(getattr(eng, 'spec_fallback', None) or menv, dict(c.spec_env))
             for sn, ssrc in c.spec_defs.items():
                 g.vars[sn] = eng.eval_spec(ssrc, g)
             define_recs(eng, c.spec_recs, g)
